@@ -53,6 +53,11 @@ pub fn galgorithm() -> BoxedStrategy<String> {
     .boxed()
 }
 
+/// A count at or next to a number of the source under test (2..=max).
+pub fn gcount(max: usize) -> BoxedStrategy<usize> {
+    crate::chars::gsize(max).prop_map(|n| n.max(2)).boxed()
+}
+
 fn dedup_quals(q: Vec<(String, String)>) -> Vec<(String, String)> {
     let mut out: Vec<(String, String)> = Vec::new();
     for (k, v) in q {
@@ -90,7 +95,7 @@ pub fn gtuple(typed: bool) -> BoxedStrategy<Tuple> {
             24 => proptest::collection::vec((gkey(), gtext1()), 0..=3),
             2 => proptest::collection::vec((gkey(), gtext1()), 4..=12),
             // more than 16 / 32 qualifiers
-            1 => (17usize..=40, gtext1(), proptest::collection::vec(0usize..6, 40)).prop_map(|(n, v, heads)| {
+            1 => (prop_oneof![2 => (17usize..=40).boxed(), 1 => gcount(70)], gtext1(), proptest::collection::vec(0usize..6, 72)).prop_map(|(n, v, heads)| {
                 // heads that differ by '_' / '.' / a letter (in either case) right after a shared first letter
                 const HEADS: &[&str] = &["q", "Q", "a_", "ab", "aB", "a."];
                 (0..n).map(|i| (format!("{}{i:02}", HEADS[heads[i]]), v.clone())).collect::<Vec<_>>()
@@ -103,7 +108,7 @@ pub fn gtuple(typed: bool) -> BoxedStrategy<Tuple> {
             // long digests (more than 128 / 256 hex digits) and more than 64 algorithms
             1 => prop_oneof![
                 (galgorithm(), proptest::collection::vec(any::<u8>(), 120..=300)).prop_map(|e| vec![e]),
-                (65usize..=80, any::<u8>()).prop_map(|(n, b)| (0..n).rev().map(|i| (format!("h{i:02}"), vec![b, i as u8])).collect::<Vec<_>>()),
+                (prop_oneof![2 => (65usize..=80).boxed(), 1 => gcount(90)], any::<u8>()).prop_map(|(n, b)| (0..n).rev().map(|i| (format!("h{i:02}"), vec![b, i as u8])).collect::<Vec<_>>()),
             ],
         ],
         proptest::collection::vec(gsub_segment(), 0..=3),
